@@ -2,12 +2,14 @@ use mclib::engine::Tier;
 
 pub mod common;
 pub mod c02;
+pub mod c05;
 pub mod selftest;
 
 pub fn dispatch(id: &str, tier: Tier, replay: Option<&str>, rest: &[String]) -> i32 {
     let _ = rest;
     match id {
         "C02" => c02::run(tier, replay),
+        "C05" => c05::run(tier, replay),
         "selftest" => selftest::run(),
         _ => {
             eprintln!("unknown property {id}");
